@@ -1,5 +1,5 @@
 """C16 -- digests, HMAC and CBC ciphers compute the standard functions for all inputs."""
-import os, re, hashlib, hmac as pyhmac, subprocess, shutil, struct
+import os, re, hashlib, hmac as pyhmac, subprocess, shutil, struct, zlib
 import vlib
 from vlib import hexs, unhex
 
@@ -8,20 +8,26 @@ META = dict(
     design_ref='DESIGN.md section 4, C16',
     technique='Coq proof (refinement of the streaming MD5/SHA-1/HMAC/CBC objects to pad-then-fold specifications) + '
               'source-regenerated leaf functions and constant tables + extracted-model correspondence + independent oracle',
-    level_text=('Theorems in coq/C16/Props.v (31, closed, no axioms): the bundled MD5 and SHA-1 objects, fed any list of chunks (empty ones '
+    level_text=('Theorems in coq/C16/Props.v (43, closed, no axioms): the bundled MD5 and SHA-1 objects, fed any list of chunks (empty ones '
                 'included; MD5 chunks < 2^31 bytes), read out the RFC 1321 / FIPS 180-4 pad-then-fold digest of the concatenation; k messages '
                 'through one object each get their own digest (reset after readout, from any state); the MD5 step table and IV of the code equal '
                 'the RFC-formula ones; the 80-round SHA-1 function of the code equals FIPS 180-4 6.1.2 written from the standard; the HMAC object '
                 'equals RFC 2104 for every key length, chunking and reuse given only streaming + reset of its digest object, instantiated for MD5 '
                 'and SHA-1; CBC decryption inverts encryption over any block cipher with D(E b)=b for every split of the calls, and only block 1 '
-                'depends on the decryptor IV; key::set_hex decodes exactly even-length hex strings; cbc serves calls iff key and IV were set; '
-                'name dispatch is case-insensitive with digest_size <= block_size; hmac_cipher/aes_cipher (abstract MAC and cipher) decrypt their own output for any running IVs and accept only authentic bodies. coq/C16/Link.v (27 lemmas): MD5 T constants, F/G/H/I, '
+                'depends on the decryptor IV; the whole cbc object (key, lazily expanded key schedules, running IVs), for every sequence of calls with '
+                'any operands, answers exactly like an object given ONE key at birth - the first offered key of the right size; every later set_key is '
+                'refused and changes nothing; AES written from FIPS-197 in Gallina: InvCipher inverts Cipher for every key and block, hence AES-CBC '
+                'decrypt(encrypt(p)) = p on whole blocks and across two objects, closed, and the aes_encryptor.cpp cookie format with this cipher and HMAC-SHA1 is read back by any object with the same keys whatever the running IVs, closed; key::set_hex decodes exactly even-length hex strings; cbc serves '
+                'calls iff key and IV were set; name dispatch is case-insensitive with digest_size <= block_size; hmac_cipher/aes_cipher (abstract MAC '
+                'and cipher) decrypt their own output for any running IVs and accept only authentic bodies. coq/C16/Link.v (27 lemmas): MD5 T constants, F/G/H/I, '
                 'ROTATE_LEFT (translated by cxx2v from the macros of the current src/md5.cpp), the 64 SET lines and md5_init constants '
                 '(text extractor), the numbers of sha1.h process_block/reset (text extractor with a rigid shape check), left_rotate and key::from_hex are equal to the model leafs.'),
     level_note=('Trusted: Coq kernel + vm_compute; cxx2v + clang AST and the md5 step-table text extractor in checks/C16.py; extraction; the '
                 'loops/buffering around the leafs (md5_append/finish, sha1 process_byte/get_digest, hmac, key, cbc wrappers) are hand-modelled '
-                'and tied by correspondence on the block-boundary grid; SHA-2 and AES are library code (OpenSSL): only the wrappers are in /repo, '
-                'they are checked against Python hashlib/hmac, the libcrypto block primitive and the openssl CLI (oracle only).'),
+                'and tied by correspondence on the block-boundary grid; the cbc object model with the FIPS-197 cipher is run against the real object '
+                '(statuses and output bytes of every call); SHA-2 and AES are library code (OpenSSL): only the wrappers are in /repo, '
+                'they are checked against Python hashlib/hmac, the libcrypto block primitive, a pure-Python FIPS-197 AES and the openssl CLI (oracle), '
+                'AES-CBC additionally against the Gallina FIPS-197 cipher and a sample of the SHA-2 digest/HMAC lines against FIPS 180-4 in Gallina with computed constants (correspondence).'),
 )
 
 GEN = {
@@ -112,6 +118,31 @@ def gen_md5_steps():
     with vlib.Lock('gen-Gen_C16_md5steps'):
         vlib.write_if_changed(os.path.join(vlib.COQ, 'gen', 'Gen_C16_md5steps.v'), txt)
 
+AES_SET_KEY_SHAPE = _norm("""if(key_.size()!=0) throw booster::runtime_error("cppcms::crypto::aes can't set key more then once");
+    if(k.size() != key_size()) throw booster::invalid_argument("cppcms::crypto::aes Invalid key size"); key_ = k;""")
+AES_CHECK_SHAPE = _norm("""if(key_.size() == 0) throw booster::runtime_error("cppcms::crypto::aes: attempt to use cbc without key");
+    if(!iv_initialized_) throw booster::runtime_error("cppcms::crypto::aes: attempt to use cbc without initial vector set");""")
+
+
+def check_aes_shapes():
+    """src/aes.cpp has two back ends (gcrypt, OpenSSL) and only the OpenSSL one is compiled here.  The guards the model relies on -
+    set_key: twice-check THROWS, before the size check; check(): key then IV - must have exactly the modelled text in BOTH classes,
+    so that an edit of the variant that is not compiled (e.g. losing the `throw` again) is reported as a broken tie for review."""
+    src = open(os.path.join(vlib.REPO, 'src', 'aes.cpp')).read()
+    src = re.sub(r'//[^\n]*', '', src)
+    sk = re.findall(r'void set_key\(key const &k\)\s*\{(.*?)\n\t\t\}', src, re.S)
+    ck = re.findall(r'void check\(\)\s*\{(.*?)\n\t\t\}', src, re.S)
+    if len(sk) != 2 or len(ck) != 2:
+        raise ExtractError('src/aes.cpp: expected two set_key and two check() bodies (gcrypt and OpenSSL classes), found %d / %d' % (len(sk), len(ck)))
+    for i, b in enumerate(sk):
+        if _norm(b) != AES_SET_KEY_SHAPE:
+            raise ExtractError('src/aes.cpp: set_key of the %s class does not have the modelled guards (twice-check that throws, then size check, then key_ = k)' % ('gcrypt', 'OpenSSL')[i])
+    for i, b in enumerate(ck):
+        if _norm(b) != AES_CHECK_SHAPE:
+            raise ExtractError('src/aes.cpp: check() of the %s class does not have the modelled guards (key, then IV)' % ('gcrypt', 'OpenSSL')[i])
+
+
+SAN_SOURCES = ('aes_encryptor.cpp', 'hmac_encryptor.cpp', 'aes.cpp', 'crypto.cpp', 'md5.cpp')
 ALGOS = ['md5', 'sha1', 'sha224', 'sha256', 'sha384', 'sha512']
 BLOCK = {'md5': 64, 'sha1': 64, 'sha224': 64, 'sha256': 64, 'sha384': 128, 'sha512': 128}
 DSZ = {'md5': 16, 'sha1': 20, 'sha224': 28, 'sha256': 32, 'sha384': 48, 'sha512': 64}
@@ -353,6 +384,28 @@ def gen_name_cases(ctx):
     return cases
 
 
+CBC_NAMES = {'aes': 16, 'AES': 16, 'aes128': 16, 'aes-128': 16, 'AES128': 16, 'AES-128': 16, 'aes192': 24, 'aes-192': 24, 'AES192': 24,
+             'AES-192': 24, 'aes256': 32, 'aes-256': 32, 'AES256': 32, 'AES-256': 32}
+
+
+def gen_cbcname_cases(ctx):
+    rng = ctx.rng
+    names = list(CBC_NAMES) + ['', 'Aes', 'aes 128', 'aes_128', 'aes-', 'aes1280', 'AES-128 ', 'aes512', 'aes64', 'des', 'aes\x00', 'Aes128', 'aES256', 'aes--128', '128', 'AES-192-cbc']
+    cases = ['cbcname ' + hexs(n.encode('latin-1')) for n in names]
+    for _ in range(ctx.scale(150, 1500)):
+        n = bytearray(rng.choice(list(CBC_NAMES)).encode())
+        r = rng.random()
+        if r < 0.4:
+            i = rng.randrange(len(n))
+            n[i] = n[i] ^ 0x20 if rng.random() < 0.6 else rng.randrange(256)
+        elif r < 0.55:
+            n += bytes([rng.choice(b' 0-\x00c')])
+        elif r < 0.7 and len(n) > 1:
+            del n[rng.randrange(len(n))]
+        cases.append('cbcname ' + hexs(bytes(n)))
+    return cases
+
+
 def gen_cbcst_cases(ctx):
     rng = ctx.rng
     cases = []
@@ -410,6 +463,9 @@ def gen_big_cases(ctx):
     rng = ctx.rng
     n = 2 ** 29 + rng.randrange(0, 70)
     cases = ['big md5 %d %d' % (n, 2 ** 24 + rng.randrange(0, 64))]
+    # one append call of 2^29 bytes or more: the only way to reach the high word update `count[1] += nbytes >> 29` of md5_append
+    # (found missing by mutation testing: with 16 MiB chunks nbytes >> 29 is always 0); the harness needs a 512 MiB buffer for a moment
+    cases.append('big md5 %d %d' % (2 ** 29 + 2 ** 22 + rng.randrange(0, 70), 2 ** 29 + rng.randrange(0, 64)))
     if not ctx.quick():
         cases.append('big sha1 %d %d' % (2 ** 29 + rng.randrange(0, 70), 2 ** 24 + rng.randrange(0, 64)))
         cases.append('big sha1 %d %d' % (2 ** 29 - 1, 2 ** 20))
@@ -440,6 +496,62 @@ def gen_rekey_cases(ctx):
     return cases
 
 
+def gen_cbcobj_cases(ctx):
+    """one object, calls with real operands in any order: the first accepted key is THE key.  Aimed at: set_key before/after
+    the first encrypt and the first decrypt (the key schedules are expanded lazily, once per direction), keys of the same and
+    of other sizes, the same key again, the empty key, set_iv restarts, calls refused before key/IV, decrypting what the
+    object (or its twin) encrypted."""
+    rng = ctx.rng
+    cases = []
+    for bits in (128, 192, 256):
+        ks = bits // 8
+        k1, k2, iv = bytes(range(ks)), bytes(range(16, 16 + ks)), bytes(16)
+        p = bytes.fromhex('00112233445566778899aabbccddeeff')
+        K, I, E, D = (lambda x: 'k' + hexs(x)), (lambda x: 'i' + hexs(x)), (lambda x: 'e' + hexs(x)), (lambda x: 'd' + hexs(x))
+        # the repaired defect and its neighbours
+        fixed = [
+            [K(k1), I(iv), E(p), K(k2), I(iv), E(p)],
+            [K(k1), I(iv), D(p), K(k2), I(iv), D(p), E(p)],
+            [K(k1), K(k2), I(iv), E(p), D(p)],
+            [K(k1), I(iv), E(p), K(k2), D(p)],              # decrypt schedule expanded after the refused set_key
+            [K(k1), I(iv), D(p), K(k2), E(p)],
+            [K(k1), I(iv), E(p), K(k1), E(p)],
+            [K(k1), I(iv), E(p), K(b''), E(p), K(k2[:-1]), E(p), K(k2 + b'x'), E(p)],
+            [K(k2[:-1]), K(b''), K(k2), K(k1), I(iv), E(p)],
+            [E(p), D(p), I(iv), E(p), K(k1), E(p)],
+            [K(k1), E(p), I(iv[:-1]), E(p), I(iv + b'x'), D(p), I(iv), E(b''), E(p), E(p + p)],
+        ]
+        for ops in fixed:
+            cases.append('cbcobj %d %s' % (bits, ' '.join(ops)))
+        ref = aes_ref()
+        for _ in range(ctx.scale(120, 1200)):
+            keys = [rbytes(rng, ks), rbytes(rng, ks)]
+            ops = []
+            mode = rng.random()
+            if mode < 0.75:
+                ops = [K(keys[0]), I(rbytes(rng, 16))]
+                if rng.random() < 0.3:
+                    ops.reverse()
+            cur_key, cur_iv, last_c = keys[0], None, None
+            for _ in range(rng.randrange(2, 9)):
+                r = rng.random()
+                if r < 0.25:
+                    ops.append(K(rng.choice([keys[1], keys[1], keys[0], rbytes(rng, rng.choice([0, 1, 15, 16, 17, 23, 24, 25, 31, 32, 33]))])))
+                elif r < 0.4:
+                    cur_iv = rbytes(rng, rng.choice([16, 16, 16, 15, 17, 0]))
+                    ops.append(I(cur_iv))
+                elif r < 0.72:
+                    pl = rbytes(rng, 16 * rng.choice([0, 1, 1, 2, 3]))
+                    if rng.random() < 0.3 and cur_iv is not None and len(cur_iv) == 16:
+                        # remember what a one-key object makes of it right after set_iv, to feed it back to decrypt later
+                        last_c = ref.cbc_encrypt(bits, cur_key, cur_iv, pl) if ops and ops[-1][0] == 'i' else last_c
+                    ops.append(E(pl))
+                else:
+                    ops.append(D(last_c if (last_c and rng.random() < 0.5) else rbytes(rng, 16 * rng.choice([0, 1, 1, 2, 3]))))
+            cases.append('cbcobj %d %s' % (bits, ' '.join(ops)))
+    return cases
+
+
 def gen_sess_cases(ctx):
     rng = ctx.rng
     cases = []
@@ -458,11 +570,114 @@ def gen_sess_cases(ctx):
     return cases
 
 
+def make_aes_cookie(bits, ck, a, mk, iv, plain, size_field=None, pad_to=None, fill=0):
+    """what aes_cipher::encrypt writes, built here with the reference AES and Python hmac; size_field / pad_to / fill let the
+    generator make authentic cookies (valid MAC) whose inner length field or padding is unusual"""
+    n = len(plain)
+    body_len = pad_to if pad_to is not None else (n + 4 + 15) // 16 * 16 + 16
+    inner = bytes(16) + struct.pack('<I', (n if size_field is None else size_field) & 0xffffffff) + plain
+    inner = (inner + bytes([fill]) * body_len)[:body_len]
+    body = aes_ref().cbc_encrypt(bits, ck, iv, inner)
+    return body + pyhmac.new(mk, body, a).digest()
+
+
+def gen_sessd_cases(ctx):
+    """cookies made by the check and handed to hmac_cipher::decrypt / aes_cipher::decrypt: authentic ones at the boundaries of every
+    test of decrypt (total size, whole blocks, at least two blocks, MAC, inner length field against the space available) and
+    broken ones on the other side of each test.  md5/sha1 lines also run on the extracted model of the two decrypt functions."""
+    rng = ctx.rng
+    cases = []
+    for _ in range(ctx.scale(120, 1200)):
+        a = rng.choice(ALGOS if rng.random() < 0.5 else list(MODELLED))
+        k = rbytes(rng, rng.choice([16, 17, 20, 64, 65, 100]))      # hmac_cipher refuses keys shorter than 16 bytes
+        p = rbytes(rng, rng.choice([0, 1, 2, 15, 16, 17, 40, rng.randrange(0, 120)]))
+        c = p + pyhmac.new(k, p, a).digest()
+        r = rng.random()
+        if r < 0.35:
+            pass
+        elif r < 0.5:
+            c = c[:rng.randrange(0, len(c))]                      # truncated (shorter than the digest included)
+        elif r < 0.65:
+            i = rng.choice([0, len(c) - 1, len(c) - DSZ[a], max(0, len(c) - DSZ[a] - 1), rng.randrange(len(c))])
+            c = c[:i] + bytes([c[i] ^ (1 << rng.randrange(8))]) + c[i + 1:]
+        elif r < 0.75:
+            c = p + pyhmac.new(k + b'x', p, a).digest()
+        elif r < 0.85:
+            c = c + bytes([rng.randrange(256)])
+        else:
+            c = rbytes(rng, rng.choice([0, DSZ[a] - 1, DSZ[a], DSZ[a] + 1]))
+        cases.append('sessd hmac %s %s %s' % (a, hexs(k), hexs(c)))
+    for _ in range(ctx.scale(260, 2600)):
+        bits = rng.choice([128, 192, 256])
+        a = rng.choice(ALGOS if rng.random() < 0.4 else list(MODELLED))
+        d = DSZ[a]
+        ck, mk, iv = rbytes(rng, bits // 8), rbytes(rng, rng.choice([1, 16, d, 64, 65])), rbytes(rng, 16)
+        n = rng.choice([0, 1, 11, 12, 13, 27, 28, 29, rng.randrange(0, 100)])
+        p = rbytes(rng, n)
+        nat = (n + 4 + 15) // 16 * 16 + 16
+        r = rng.random()
+        if r < 0.22:
+            c = make_aes_cookie(bits, ck, a, mk, iv, p)
+        elif r < 0.32:
+            # authentic, length field at / just beyond what the body can hold
+            room = nat - 20
+            c = make_aes_cookie(bits, ck, a, mk, iv, rbytes(rng, room), size_field=rng.choice([room, room, room + 1, room + 2, 2 ** 32 - 1, 2 ** 31, room + 16]), pad_to=nat)
+        elif r < 0.40:
+            # authentic, length field smaller than the text that is there, non-zero padding
+            c = make_aes_cookie(bits, ck, a, mk, iv, p, size_field=rng.randrange(0, n + 1), fill=rng.randrange(256))
+        elif r < 0.48:
+            # authentic but too few blocks: only the IV block / IV block + nothing
+            c = make_aes_cookie(bits, ck, a, mk, iv, b'', pad_to=rng.choice([16, 16, 0, 32]))
+        elif r < 0.56:
+            # authentic (MAC over the body) but the body is not made of whole blocks
+            body = rbytes(rng, rng.choice([17, 31, 33, 47, nat - 1, nat + 1]))
+            c = body + pyhmac.new(mk, body, a).digest()
+        elif r < 0.66:
+            c = make_aes_cookie(bits, ck, a, mk, iv, p)
+            i = rng.choice([0, 15, 16, 19, 20, len(c) - 1, len(c) - d, len(c) - d - 1, rng.randrange(len(c))])
+            c = c[:i] + bytes([c[i] ^ (1 << rng.randrange(8))]) + c[i + 1:]
+        elif r < 0.74:
+            c = make_aes_cookie(bits, ck, a, mk, iv, p)
+            c = c[:rng.choice([0, 1, d, d + 15, d + 16, d + 17, len(c) - 16, len(c) - 1])]
+        elif r < 0.82:
+            c = make_aes_cookie(bits, ck, a, mk + b'y', iv, p)          # MAC under another key
+        elif r < 0.90:
+            # authentic cookie with extra whole blocks in front (first block is thrown away, the second must carry the length)
+            c0 = make_aes_cookie(bits, ck, a, mk, iv, p)
+            body = rbytes(rng, 16) + c0[:-d]
+            c = body + pyhmac.new(mk, body, a).digest()
+        else:
+            c = rbytes(rng, rng.choice([0, 1, d + 15, d + 16, d + 32, d + 48]))
+        cases.append('sessd aes %s %s %s %s %s' % (rng.choice(['aes%d', 'AES-%d']) % bits, a, hexs(ck), hexs(mk), hexs(c)))
+    return cases
+
+
+def gen_sessk_cases(ctx):
+    """aes_factory(algo, key): ONE configured key.  |key| = cbc key size + 20: split; otherwise |key| >= cbc key size: both keys
+    derived with HMAC-SHA256 (|key| <= 32) or HMAC-SHA512 of "0" / "\\1"; shorter: refused."""
+    rng = ctx.rng
+    cases = []
+    for bits in (128, 192, 256):
+        ks = bits // 8
+        for kl in [0, 1, ks - 1, ks, ks + 1, ks + 19, ks + 20, ks + 21, 32, 33, 64, 65, 100]:
+            for _ in range(ctx.scale(2, 10)):
+                cases.append('sessk %s %s %s' % (rng.choice(['aes%d', 'aes-%d', 'AES%d']) % bits, hexs(rbytes(rng, kl)), hexs(rbytes(rng, rng.choice([0, 5, 12, 13, 40])))))
+    cases.append('sessk aes512 %s 00' % hexs(bytes(64)))
+    cases.append('sessk des %s 00' % hexs(bytes(36)))
+    return cases
+
+
 def gen_cases(ctx):
     """returns (cases run on both model and implementation, cases run on the implementation only)"""
     both = (gen_digest_cases(ctx, MODELLED, True) + gen_hmac_cases(ctx, MODELLED, True) + gen_key_cases(ctx) + gen_hexkey_cases(ctx)
-            + gen_name_cases(ctx) + gen_cbcst_cases(ctx))
-    impl = (gen_digest_cases(ctx, ALGOS, False) + gen_hmac_cases(ctx, ALGOS, False) + gen_cbc_cases(ctx) + gen_rekey_cases(ctx) + gen_sess_cases(ctx) + gen_big_cases(ctx))
+            + gen_name_cases(ctx) + gen_cbcname_cases(ctx) + gen_cbcst_cases(ctx) + gen_cbc_cases(ctx) + gen_cbcobj_cases(ctx))
+    sd = gen_sessd_cases(ctx)
+    both += [l for l in sd if modelled(l)]
+    impl = (gen_digest_cases(ctx, ALGOS, False) + gen_hmac_cases(ctx, ALGOS, False) + gen_rekey_cases(ctx) + gen_sess_cases(ctx) + [l for l in sd if not modelled(l)] + gen_sessk_cases(ctx) + gen_big_cases(ctx))
+    # the sampled SHA-2 lines also run on the model (md5/sha1 have their own model-side grid above)
+    sha2 = lambda l: l.split()[0] in ('dg', 'hm') and l.split()[1] not in MODELLED and modelled(l)
+    both += [l for l in impl if sha2(l)]
+    impl = [l for l in impl if not sha2(l)]
     rng = ctx.rng
     # long messages (implementation vs independent implementation only)
     for n in ([5000, 65535, 65536, 65537] if ctx.quick() else [5000, 65535, 65536, 65537, 262144, 1048576, 1048577, 3000001]):
@@ -476,11 +691,105 @@ def gen_cases(ctx):
 # ------------------------------------------------------------------------------------------------
 # independent references
 # ------------------------------------------------------------------------------------------------
+class PyAes:
+    """FIPS-197 written here from the standard (S-box computed from the field inverse + affine map): reference of last resort
+    and cross-check of the libcrypto primitive; slow, used on small volumes only"""
+    def __init__(self):
+        def xt(a):
+            a <<= 1
+            return (a ^ 0x11b) & 0xff if a & 0x100 else a
+        def mul(a, b):
+            r = 0
+            while b:
+                if b & 1:
+                    r ^= a
+                a = xt(a)
+                b >>= 1
+            return r
+        self.mul = mul
+        inv = [0] * 256
+        for a in range(1, 256):
+            for b in range(1, 256):
+                if mul(a, b) == 1:
+                    inv[a] = b
+                    break
+        rot = lambda x, n: ((x << n) | (x >> (8 - n))) & 0xff
+        self.sbox = [inv[a] ^ rot(inv[a], 1) ^ rot(inv[a], 2) ^ rot(inv[a], 3) ^ rot(inv[a], 4) ^ 0x63 for a in range(256)]
+        self.isbox = [0] * 256
+        for a, b in enumerate(self.sbox):
+            self.isbox[b] = a
+        self.m = {c: [mul(x, c) for x in range(256)] for c in (2, 3, 9, 11, 13, 14)}
+        self.cache = {}
+
+    def expand(self, key):
+        if key in self.cache:
+            return self.cache[key]
+        nk = len(key) // 4
+        nr = nk + 6
+        w = [list(key[4 * i:4 * i + 4]) for i in range(nk)]
+        rc = 1
+        for i in range(nk, 4 * (nr + 1)):
+            t = list(w[i - 1])
+            if i % nk == 0:
+                t = [self.sbox[x] for x in t[1:] + t[:1]]
+                t[0] ^= rc
+                rc = self.mul(rc, 2)
+            elif nk > 6 and i % nk == 4:
+                t = [self.sbox[x] for x in t]
+            w.append([a ^ b for a, b in zip(w[i - nk], t)])
+        rk = [sum(w[4 * r:4 * r + 4], []) for r in range(nr + 1)]
+        if len(self.cache) > 64:
+            self.cache.clear()
+        self.cache[key] = rk
+        return rk
+
+    def enc_block(self, key, b):
+        rk = self.expand(key)
+        nr = len(rk) - 1
+        s = [x ^ k for x, k in zip(b, rk[0])]
+        m2, m3 = self.m[2], self.m[3]
+        for r in range(1, nr + 1):
+            s = [self.sbox[x] for x in s]
+            s = [s[(i + 4 * (i % 4)) % 16] for i in range(16)]          # ShiftRows on column-major state
+            if r < nr:
+                t = []
+                for c in range(4):
+                    a0, a1, a2, a3 = s[4 * c:4 * c + 4]
+                    t += [m2[a0] ^ m3[a1] ^ a2 ^ a3, a0 ^ m2[a1] ^ m3[a2] ^ a3, a0 ^ a1 ^ m2[a2] ^ m3[a3], m3[a0] ^ a1 ^ a2 ^ m2[a3]]
+                s = t
+            s = [x ^ k for x, k in zip(s, rk[r])]
+        return bytes(s)
+
+    def dec_block(self, key, b):
+        rk = self.expand(key)
+        nr = len(rk) - 1
+        m9, m11, m13, m14 = self.m[9], self.m[11], self.m[13], self.m[14]
+        s = [x ^ k for x, k in zip(b, rk[nr])]
+        for r in range(nr - 1, -1, -1):
+            s = [s[(i - 4 * (i % 4)) % 16] for i in range(16)]          # InvShiftRows
+            s = [self.isbox[x] for x in s]
+            s = [x ^ k for x, k in zip(s, rk[r])]
+            if r > 0:
+                t = []
+                for c in range(4):
+                    a0, a1, a2, a3 = s[4 * c:4 * c + 4]
+                    t += [m14[a0] ^ m11[a1] ^ m13[a2] ^ m9[a3], m9[a0] ^ m14[a1] ^ m11[a2] ^ m13[a3],
+                          m13[a0] ^ m9[a1] ^ m14[a2] ^ m11[a3], m11[a0] ^ m13[a1] ^ m9[a2] ^ m14[a3]]
+                s = t
+        return bytes(s)
+
+
 class AesRef:
     """CBC computed here from the single-block primitive of the system libcrypto (ctypes); the openssl
     command line is used as a second reference on a sample; both optional (NIST vectors always apply)."""
     def __init__(self):
         self.lib = None
+        self.py = PyAes()
+        # self-test of the reference written here: FIPS-197 appendix C.1, C.2, C.3
+        for kl, ct in ((16, '69c4e0d86a7b0430d8cdb78070b4c55a'), (24, 'dda97ca4864cdfe06eaf70a0ec0d7191'), (32, '8ea2b7ca516745bfeafc49904b496089')):
+            pt = bytes.fromhex('00112233445566778899aabbccddeeff')
+            if self.py.enc_block(bytes(range(kl)), pt).hex() != ct or self.py.dec_block(bytes(range(kl)), bytes.fromhex(ct)) != pt:
+                raise RuntimeError('PyAes self-test failed')
         self.cli = shutil.which('openssl')
         self.cli_budget = 0
         try:
@@ -499,9 +808,22 @@ class AesRef:
         except Exception:
             self.lib = None
 
+    def py_cbc(self, key, iv, data, enc):
+        out = b''
+        prev = iv
+        for i in range(0, len(data) - 15, 16):
+            blk = data[i:i + 16]
+            if enc:
+                prev = self.py.enc_block(key, bytes(a ^ b for a, b in zip(blk, prev)))
+                out += prev
+            else:
+                out += bytes(a ^ b for a, b in zip(self.py.dec_block(key, blk), prev))
+                prev = blk
+        return out
+
     def cbc_encrypt(self, bits, key, iv, plain):
         if self.lib is None:
-            return None
+            return self.py_cbc(key, iv, plain, True) if len(key) * 8 == bits else None
         ks = self.ct.create_string_buffer(512)
         self.lib.AES_set_encrypt_key(key, bits, ks)
         o = self.ct.create_string_buffer(16)
@@ -516,7 +838,7 @@ class AesRef:
 
     def cbc_decrypt(self, bits, key, iv, cipher):
         if self.lib is None or not hasattr(self.lib, 'AES_set_decrypt_key'):
-            return None
+            return self.py_cbc(key, iv, cipher, False) if len(key) * 8 == bits else None
         ks = self.ct.create_string_buffer(512)
         self.lib.AES_set_decrypt_key(key, bits, ks)
         o = self.ct.create_string_buffer(16)
@@ -543,7 +865,7 @@ class AesRef:
 
 
 AES = None
-REFS_USED = {'libcrypto_block': 0, 'openssl_cli': 0, 'nist_vectors': 0, 'hashlib': 0}
+REFS_USED = {'libcrypto_block': 0, 'python_aes': 0, 'openssl_cli': 0, 'nist_vectors': 0, 'hashlib': 0}
 
 
 def aes_ref():
@@ -564,11 +886,14 @@ def py_set_hex(s):
 
 
 def py_cbcst(bits, ops):
+    """the rule: a key is accepted once (right size); every later set_key is refused, whatever it offers"""
     k = i = False
     out = []
     for op in ops:
         if op[0] == 'k':
-            if int(op[1:]) == bits // 8:
+            if k:
+                out.append('keytwice')
+            elif int(op[1:]) == bits // 8:
                 k = True
                 out.append('ok')
             else:
@@ -584,6 +909,45 @@ def py_cbcst(bits, ops):
             out.append('ok')
         else:
             out.append('nokey' if not k else 'noiv' if not i else 'ok')
+    return out
+
+
+def py_cbcobj(bits, ops):
+    """what an object that uses the ONE key it was given must answer: statuses, and for every served encrypt/decrypt the CBC
+    of the operand under the first accepted key with the running IV of that direction (reference AES, not the object)"""
+    ref = aes_ref()
+    key = ive = ivd = None
+    out = []
+    for op in ops:
+        t, z = op[0], unhex(op[1:])
+        if t == 'k':
+            if key is not None:
+                out.append('keytwice')
+            elif len(z) != bits // 8:
+                out.append('badkey')
+            else:
+                key = z
+                out.append('ok')
+        elif t == 'i':
+            if len(z) != 16:
+                out.append('badiv')
+            else:
+                ive = ivd = z
+                out.append('ok')
+        elif key is None:
+            out.append('nokey')
+        elif ive is None:
+            out.append('noiv')
+        elif t == 'e':
+            r = ref.cbc_encrypt(bits, key, ive, z)
+            if r:
+                ive = r[-16:]
+            out.append('ok:' + hexs(r))
+        else:
+            r = ref.cbc_decrypt(bits, key, ivd, z)
+            if z:
+                ivd = z[-16:]
+            out.append('ok:' + hexs(r))
     return out
 
 
@@ -645,6 +1009,11 @@ def oracle(case, out):
         exp = 'null' if low not in DSZ else '%s %d %d' % (low, DSZ[low], BLOCK[low])
         if ' '.join(o[1:]) != exp:
             return ('digest-name-dispatch-wrong', 'create_by_name answered %s, expected %s' % (' '.join(o[1:]), exp))
+    elif op == 'cbcname':
+        n = unhex(c[1]).decode('latin-1')
+        exp = '%d 16' % CBC_NAMES[n] if n in CBC_NAMES else 'null'
+        if ' '.join(o[1:]) != exp:
+            return ('cbc-name-dispatch-wrong', 'cbc::create(%r) answered %s, expected %s' % (n, ' '.join(o[1:]), exp))
     elif op == 'cbcst':
         exp = py_cbcst(int(c[1]), c[2:])
         if o[1:] != exp:
@@ -676,6 +1045,10 @@ def oracle(case, out):
             REFS_USED['libcrypto_block'] += 1
             if r != ciph:
                 return ('cbc-ciphertext-wrong', 'ciphertext differs from CBC computed block by block with the raw AES primitive')
+        if 0 < len(plain) <= 48 and len(key) * 8 == bits:
+            REFS_USED['python_aes'] += 1
+            if ref.py_cbc(key, iv, plain, True) != ciph:
+                return ('cbc-ciphertext-wrong', 'ciphertext differs from CBC over the FIPS-197 cipher written in the check (pure Python)')
         r = ref.cli_encrypt(bits, key, iv, plain)
         if r is not None:
             REFS_USED['openssl_cli'] += 1
@@ -688,13 +1061,25 @@ def oracle(case, out):
                     '%s of %d bytes (>= 2^29: the bit count needs more than 32 bits) fed in chunks of %s: digest differs from the standard function' % (a, n, c[3]))
     elif op == 'rekey':
         flags = dict(x.split('=') for x in o[1:])
-        if c[2] != c[3] and flags.get('threw') != '1' and (flags.get('new') != '1' or flags.get('decnew') != '1'):
-            # neither refused nor effective: the object goes on with the key schedule of the FIRST key
-            if c[6] == '1' and flags.get('old') == '1':
-                return ('cbc-set_key-after-use-keeps-old-key',
-                        'aes-%s object: set_key(k2) after an encrypt/decrypt under k1 is accepted, but later calls still use k1 '
-                        '(a fresh object with k2 and the same IV cannot decrypt its output)' % c[1])
-            return ('cbc-second-set_key-wrong', 'second set_key neither refused nor effective: ' + ' '.join(o[1:]))
+        if flags.get('threw') != '1':
+            return ('cbc-second-set_key-not-refused',
+                    'aes-%s object: a second set_key (%s the first use) did not throw; once a key is set every further set_key must be refused: %s'
+                    % (c[1], 'after' if c[6] == '1' else 'before', ' '.join(o[1:])))
+        if flags.get('old') != '1' or (c[2] != c[3] and (flags.get('new') == '1' or flags.get('decnew') == '1')):
+            return ('cbc-object-not-under-its-one-key',
+                    'aes-%s object: after a refused second set_key the object must go on encrypting/decrypting under its first key: %s' % (c[1], ' '.join(o[1:])))
+    elif op == 'cbcobj':
+        exp = py_cbcobj(int(c[1]), c[2:])
+        REFS_USED['python_aes' if aes_ref().lib is None else 'libcrypto_block'] += 1
+        if o[1:] != exp:
+            i = next((j for j in range(min(len(exp), len(o) - 1)) if o[1 + j] != exp[j]), min(len(exp), len(o) - 1))
+            got = o[1 + i] if 1 + i < len(o) else '<missing>'
+            want = exp[i] if i < len(exp) else '<nothing>'
+            if got.split(':')[0] != want.split(':')[0]:
+                return ('cbcobj-status-wrong', 'call %d (%s...) of the sequence answered %s, expected %s' % (i + 1, c[2 + i][:9], got[:40], want[:40]))
+            return ('cbcobj-not-cbc-under-its-one-key',
+                    'aes-%s object, call %d (%s of %d bytes): output is not CBC of the operand under the first accepted key with the running IV'
+                    % (c[1], i + 1, 'encrypt' if c[2 + i][0] == 'e' else 'decrypt', len(unhex(c[2 + i][1:]))))
     elif op == 'sess' and c[1] == 'hmac':
         a, k, p = c[2], unhex(c[3]), unhex(c[4])
         ciph = unhex(o[2])
@@ -726,6 +1111,67 @@ def oracle(case, out):
             REFS_USED['libcrypto_block'] += 1
             if d[16:20] != struct.pack('<I', len(p)) or d[20:20 + len(p)] != p:
                 return ('session-aes-format', 'independent CBC decryption of the cookie does not give length || plain after the first block')
+    elif op == 'sessd' and c[1] == 'hmac':
+        a, k, ck = c[2], unhex(c[3]), unhex(c[4])
+        d = DSZ[a]
+        exp = 'fail'
+        if len(ck) >= d and pyhmac.compare_digest(pyhmac.new(k, ck[:len(ck) - d], a).digest(), ck[len(ck) - d:]):
+            exp = 'ok:' + hexs(ck[:len(ck) - d])
+        if ' '.join(o[1:]) != exp:
+            return ('session-hmac-decrypt-wrong', 'hmac_cipher::decrypt of a %d-byte cookie answered %s, expected %s' % (len(ck), ' '.join(o[1:])[:60], exp[:60]))
+    elif op == 'sessd' and c[1] == 'aes':
+        a, ckey, mk, ck = c[3], unhex(c[4]), unhex(c[5]), unhex(c[6])
+        bits = int(re.sub(r'\D', '', c[2]))
+        d = DSZ[a]
+        exp, why = 'fail', ''
+        real = len(ck) - d
+        if len(ck) < d + 16:
+            why = 'shorter than digest + one block'
+        elif real % 16:
+            why = 'body is not whole blocks'
+        elif real // 16 < 2:
+            why = 'fewer than two blocks'
+        elif not pyhmac.compare_digest(pyhmac.new(mk, ck[:real], a).digest(), ck[real:]):
+            why = 'MAC does not match'
+        else:
+            full = aes_ref().cbc_decrypt(bits, ckey, bytes(16), ck[:real])
+            size = struct.unpack('<I', full[16:20])[0]
+            if size > real - 20:
+                why = 'authentic, but the inner length field %d exceeds the %d bytes available' % (size, real - 20)
+            else:
+                exp = 'ok:' + hexs(full[20:20 + size])
+        if ' '.join(o[1:]) != exp:
+            return ('session-aes-decrypt-wrong', 'aes_cipher::decrypt of a %d-byte cookie (%s) answered %s, expected %s'
+                    % (len(ck), why or 'authentic and well formed', ' '.join(o[1:])[:60], exp[:60]))
+    elif op == 'sessk':
+        m = re.fullmatch(r'(?:aes|AES)-?(128|192|256)?', c[1])
+        k, p = unhex(c[2]), unhex(c[3])
+        if not m:
+            exp = 'unsupported'
+        else:
+            bits = int(m.group(1) or 128)
+            ks = bits // 8
+            if len(k) == ks + 20:
+                ck, mk = k[:ks], k[ks:]
+            elif len(k) >= ks:
+                h = 'sha256' if len(k) * 8 <= 256 else 'sha512'
+                ck, mk = pyhmac.new(k, b'0', h).digest()[:ks], pyhmac.new(k, b'\x01', h).digest()[:20]
+            else:
+                ck = None
+            exp = 'badkeylen' if ck is None else None
+        if exp is not None:
+            if o[1:] != [exp]:
+                return ('session-aes-factory-key-rule', 'aes_factory(%s, key of %d bytes) answered %s, expected %s' % (c[1], len(k), ' '.join(o[1:])[:60], exp))
+        else:
+            if len(o) != 3 or o[2] != 'dec=1':
+                return ('session-aes-factory-roundtrip', 'aes_factory(%s, key of %d bytes): second encryptor does not decrypt the first one-s output: %s' % (c[1], len(k), ' '.join(o[1:])[:80]))
+            ck2 = unhex(o[1])
+            body = (len(p) + 4 + 15) // 16 * 16 + 16
+            if len(ck2) != body + 20 or ck2[body:] != pyhmac.new(mk, ck2[:body], 'sha1').digest():
+                return ('session-aes-factory-mac-key', 'aes_factory(%s, key of %d bytes): trailer is not HMAC-SHA1 under the mac key derived by the documented rule' % (c[1], len(k)))
+            full = aes_ref().cbc_decrypt(bits, ck, bytes(16), ck2[:body])
+            if full[16:20] != struct.pack('<I', len(p)) or full[20:20 + len(p)] != p:
+                return ('session-aes-factory-cbc-key', 'aes_factory(%s, key of %d bytes): body does not decrypt under the cbc key derived by the documented rule' % (c[1], len(k)))
     else:
         return ('bad-case', 'unknown case ' + case[:80])
     return None
@@ -750,7 +1196,9 @@ def nontrivial(case, out):
         return len(c) > 2
     if c[0] == 'rekey':
         return c[2] != c[3]
-    if c[0] in ('key', 'keyf', 'name', 'hexkey'):
+    if c[0] == 'cbcobj':
+        return ' ok:' in out and any(x[0] in 'ed' and len(x) > 2 for x in c[2:])
+    if c[0] in ('key', 'keyf', 'name', 'hexkey', 'cbcname'):
         return c[1] != '-'
     return True
 
@@ -777,12 +1225,21 @@ def classify(case, out):
         return 'cbc:aes%s:%s' % (c[1], 'blocks0' if c[4] == '.' else 'blocks1' if len(b''.join(parse_msg(c[4]))) == 16 else 'blocks2+')
     if c[0] == 'sess':
         return 'sess:' + c[1]
+    if c[0] == 'sessd':
+        return 'sessd:%s:%s' % (c[1], 'accepted' if ' ok:' in out else 'refused')
+    if c[0] == 'sessk':
+        return 'sessk:' + ('made' if 'dec=' in out else 'refused')
     if c[0] == 'rekey':
         return 'rekey:used' + c[6]
     if c[0] == 'big':
         return 'big:' + c[1]
+    if c[0] == 'cbcobj':
+        nk = sum(1 for x in c[2:] if x[0] == 'k')
+        return 'cbcobj:aes%s:%s:%s' % (c[1], 'keytwice' if 'keytwice' in out else 'keys%d' % min(nk, 2), 'served' if ' ok:' in out else 'none-served')
     if c[0] in ('key', 'keyf'):
         return c[0] + ':' + (out.split()[1] if len(out.split()) > 1 else '?')
+    if c[0] == 'cbcname':
+        return 'cbcname:' + ('null' if 'null' in out else 'found')
     if c[0] == 'name':
         return 'name:' + ('null' if 'null' in out else 'found')
     return c[0]
@@ -800,6 +1257,10 @@ def run(ctx):
             with vlib.Lock('gen-' + genname):
                 vlib.write_if_changed(os.path.join(vlib.COQ, 'gen', genname + '.v'),
                                       '(* extractor failed: %s *)\nDefinition broken : False := I.\n' % re.sub(r'[^A-Za-z0-9 ,.:=+-]', ' ', str(e)))
+    try:
+        check_aes_shapes()
+    except (ExtractError, OSError) as e:
+        ctx.broke('src/aes.cpp guard shape check failed (tie to source broken)', str(e))
     res = vlib.coq_props('C16', extra_files=['C16/Link.v'])
     ctx.proof(res)
     ctx.coverage['trusted_base'] = [
@@ -807,19 +1268,22 @@ def run(ctx):
         'extraction: ExtrOcamlBasic only, OCaml 4.13.1',
         'tools/cxx2v.py + clang AST (macro bodies of src/md5.cpp through harness/C16_md5probe.cpp, key::from_hex, left_rotate); gen_md5_steps text extractor (SET lines, md5_init)',
         'harness/C16_crypto.cpp, ocaml/C16_driver.ml, checks/C16.py (generators, oracles using Python hashlib/hmac, libcrypto AES block primitive via ctypes, openssl CLI, NIST SP 800-38A vectors)',
-        'hand model of the buffering loops of md5_append / sha1 process_byte / get_digest and of the hmac, cbc, key wrappers (coq/C16/Defs.v)',
-        'OpenSSL libcrypto (SHA-2, AES) is outside /repo: only its wrappers are checked']
+        'hand model of the buffering loops of md5_append / sha1 process_byte / get_digest and of the hmac, cbc, key wrappers (coq/C16/Defs.v); FIPS-197 transcription coq/C16/AesDefs.v (KATs C.1-C.3, SP 800-38A); FIPS 180-4 SHA-2 transcription coq/C16/Sha2Defs.v (KATs, RFC 4231)',
+        'OpenSSL libcrypto (SHA-2, AES) is outside /repo: only its wrappers are checked',
+        'sanitizer pass: g++ AddressSanitizer; src/{aes_encryptor,hmac_encryptor,aes,crypto,md5}.cpp compiled into the harness executable interpose the copies in libcppcms.so']
     ctx.assumptions = ['unsigned int is 32 bits and size_t 64 bits, little-endian host (x86-64): md5_process reads the block as little-endian words',
                        'size_t -> int conversion of the md5 append size is two-s-complement truncation (gcc/clang); chunks of 2^31 bytes or more are outside the proved domain',
                        'the digest handed to hmac::hmac(digest,key) is fresh (nothing appended yet)',
-                       'CBC theorems: the block cipher satisfies D(E b) = b on 16-byte blocks (Section hypothesis, AES itself is library code)',
-                       'session-cipher theorems: abstract MAC with |mac m| = digest_size, block cipher with D(E b)=b and 16-byte blocks, text shorter than 2^32 bytes; model tied by reading + sess oracle (not extracted)',
+                       'generic CBC theorems: the block cipher satisfies D(E b) = b on 16-byte blocks (premise); the aes_* theorems have no cipher premise (FIPS-197 in Gallina, bytes < 256, key of at least 4 bytes); that OpenSSL computes FIPS-197 is checked by correspondence on the cbc/cbcobj cases, not proved',
+                       'cbc object theorems: 0 < key_size() (16, 24, 32 in the code); set_nonce_iv randomness enters as operands of the ONonce operation',
+                       'session-cipher theorems: abstract MAC with |mac m| = digest_size, block cipher with D(E b)=b and 16-byte blocks (no cipher premise in the *_real_cipher / session_cookie_* theorems), text shorter than 2^32 bytes; decrypt side extracted and run against the real decrypt functions (sessd), encrypt side (nonce IV inside the object) tied by reading + sess/sessk oracles',
                        'sha1_spec_is_fips180: bytes are < 256',
                        'HMAC theorem: the digest object satisfies the streaming and reset-after-readout facts (proved for MD5 and SHA-1, Section hypotheses for the OpenSSL SHA-2 objects)']
     exe, err = vlib.build_harness('C16_crypto', ['C16_crypto.cpp'])
     if not exe:
         ctx.broke('harness build failed', err)
         return
+    # Extract.v imports C16/AesDefs.vo and C16/Sha2Defs.vo: both are dependencies of Props.v, built (make -k) by coq_props above
     mexe, err = vlib.build_model('C16', 'C16_driver.ml', 'c16m')
     if not mexe:
         ctx.broke('model extraction/build failed', err)
@@ -831,8 +1295,8 @@ def run(ctx):
                             'empty chunks and cuts at the buffer boundary; reuse of one object for 2..4 messages; HMAC keys 0..3 blocks (shorter/equal/longer than the block, '
                             'around the digest size). md5/sha1 cases run on the extracted model too; all six algorithms against hashlib/hmac. key/keyf: all strings '
                             'of length<=3 over a 16-letter alphabet + random hex with faults; cbc: NIST SP 800-38A vectors, 0..256 blocks x 3 key sizes x call splits, '
-                            'compared with CBC built from the raw libcrypto block primitive and the openssl CLI; cbcst: all op sequences of length<=3 over 8 ops; big: md5 (thorough: sha1, sha256 too) of 2^29+x generated bytes (bit-count carries); rekey: second set_key before/after use; '
-                            'sess: hmac_cipher/aes_cipher format, roundtrip, every single-bit forgery. Non-trivial = some message non-empty / some block / non-empty text; '
+                            'compared with CBC built from the raw libcrypto block primitive and the openssl CLI; cbcst: all op sequences of length<=3 over 8 ops (+ random longer ones); cbcobj: one real object through call sequences with real keys/IVs/blocks (second set_key before/after first encrypt/decrypt, other sizes, empty key, set_iv restarts), model = FIPS-197 object model, oracle = one-key rule recomputed with the raw block primitive; big: md5 (thorough: sha1, sha256 too) of 2^29+x generated bytes (bit-count carries); rekey: second set_key before/after use must throw and keep the first key; '
+                            'sess: hmac_cipher/aes_cipher format, roundtrip, every single-bit forgery; sessd: cookies made by the check (authentic at every boundary of decrypt: inner length field =/> room, two blocks, IV block only, body not whole blocks, extra leading blocks; and broken ones) through the real decrypt functions, md5/sha1 lines also on the extracted hc_decrypt/ac_decrypt with the FIPS-197 cipher; sessk: aes_factory(algo,key) key split/stretch rule. Non-trivial = some message non-empty / some block / non-empty text; '
                             'distinct = distinct case lines.')
     ctx.coverage['exhaustive'] = False
     if ctx.replay_cases is not None:
@@ -847,6 +1311,21 @@ def run(ctx):
         vlib.differential(ctx, both, exe, mexe, oracle, nontrivial, classify)
     if impl:
         vlib.differential(ctx, impl, exe, None, oracle, nontrivial, classify, what='implementation vs independent reference')
+    # sanitizer pass: the anchored sources compiled INTO the harness with AddressSanitizer (they interpose the library's copies), so that
+    # over-reads / over-writes that do not change an answer (e.g. a relaxed size check in aes_cipher::decrypt) still fail the check
+    sexe, err = vlib.build_harness('C16_crypto_san', ['C16_crypto.cpp'] + [os.path.join(vlib.REPO, 'src', f) for f in SAN_SOURCES],
+                                   extra=['-fsanitize=address', '-fno-omit-frame-pointer', '-Wl,--no-as-needed', '-lcrypto'])
+    if not sexe:
+        ctx.broke('sanitizer harness build failed (anchored sources no longer compile on their own?)', err)
+    else:
+        small = [l for l in both + impl if l.split()[0] not in ('big',) and len(l) < 3000]
+        keep = [l for l in small if l.split()[0] in ('sessd', 'sess', 'sessk', 'cbcobj', 'rekey', 'keyf', 'hexkey')]
+        rest = [l for l in small if l.split()[0] not in ('sessd', 'sess', 'sessk', 'cbcobj', 'rekey', 'keyf', 'hexkey')]
+        step = max(1, len(rest) // ctx.scale(1500, 6000))
+        san = keep + rest[::step]
+        env = dict(os.environ, ASAN_OPTIONS='detect_leaks=0:abort_on_error=0:exitcode=77')
+        vlib.differential(ctx, san, sexe, None, oracle, nontrivial, classify, impl_env=env, what='sanitizer run (ASan, anchored sources compiled into the harness)', parallel=False)
+        ctx.coverage['sanitizer_cases'] = len(san)
     ctx.coverage['model_cases'] = len(both)
     ctx.coverage['oracle_only_cases'] = len(impl)
     ctx.coverage['references_used'] = dict(REFS_USED)
@@ -861,5 +1340,11 @@ def modelled(line):
     if not c:
         return False
     if c[0] in ('dg', 'hm'):
-        return len(c) > 1 and c[1] in MODELLED
-    return c[0] in ('key', 'keyf', 'name', 'cbcst', 'hexkey')
+        if len(c) > 1 and c[1] in MODELLED:
+            return True
+        # the library-backed SHA-2 wrappers against FIPS 180-4 in Gallina (coq/C16/Sha2Defs.v; slow arithmetic): a fixed sample
+        # (one line in 16) of the lines with at most 600 bytes of message and key (the boundary grid of both block sizes lies below that)
+        return len(c) > 1 and c[1] in ALGOS and len(line) < 1300 and zlib.crc32(line.encode()) % 16 == 0
+    if c[0] == 'sessd':
+        return (c[2] if c[1] == 'hmac' else c[3]) in MODELLED
+    return c[0] in ('key', 'keyf', 'name', 'cbcname', 'cbcst', 'hexkey', 'cbcobj', 'cbc')
